@@ -209,7 +209,13 @@ def _analyser_assigns_size(prog):
     f = fs[0]
     g = prog.cfg(f)
     writes = [n for n, l, r, op in g.writes() if SX.is_node(SX.strip(l)) and SX.strip(l).get('k') == 'member' and SX.strip(l).get('q') == 'bloch::compiler::ArrayType::size']
-    edges = [n for n in g.nodes if n.kind == 'edge' and n.pol and SX.is_node(n.e) and 'sizeExpression' in SX.show(n.e) and SX.cmp_parts(n.e) is None and
+    from ..kcanon import Canon
+    canon = Canon(prog, f)
+
+    def shown(e):
+        # the test may go through a local (`Expression* sizeExpr = arr.sizeExpression.get(); if (sizeExpr) …`)
+        return SX.show(canon.expand(SX.strip(e)))
+    edges = [n for n in g.nodes if n.kind == 'edge' and n.pol and SX.is_node(n.e) and 'sizeExpression' in shown(n.e) and SX.cmp_parts(n.e) is None and
              not any(x['k'] in ('mcall', 'call') and SX.short(SX.callee(x)) not in ('operator bool', 'get') for x in SX.walk(n.e))]
     if not writes or not edges:
         return False
